@@ -23,6 +23,7 @@
  Rs sorted        : every numpy.interp abscissa is ascending by construction or by a recorded precondition.
  Rn arg roles     : a variable named like a parameter of the callee is handed to that parameter (no exchanged roles).
  R9 dual stage params: p_max of the booster, flat-max gain = sum of the stages, stage parameters under their own prefix.
+ R10 converted tables: convert / convert_back twins of the amplifier tables agree (keys, order key) - shared with C18.
 """
 import ast
 from fractions import Fraction
@@ -597,6 +598,15 @@ def r9_dual_stage_params(ctx):
     ctx.need('R9.dual-stage-params', 6)
 
 
+
+def r10_converted_tables(ctx):
+    """R10: the amplifier tables a converted (YANG) library hands to the NF / gain model are the legacy tables: each convert_X /
+    convert_back_X twin agrees on keys and entry order (nf_coef is re-ordered by its coef_order key) - rule shared with C18"""
+    from .c18 import r2_siblings as _r
+    from .common import proxy
+    _r(proxy(ctx, 'R10'))
+
+
 from ..memo import rule_for as _memo_rule
 
 RULES_MEMO = ('Rm.memo', _memo_rule('C04', 'the gain, NF or ASE of another operating point would be applied'))
@@ -607,4 +617,4 @@ from ..presence import rule_for as _presence_rule
 RULES_PRESENCE = ('Rp.presence', _presence_rule('C04', 'an amplifier setting of exactly 0 would be replaced by a default'))
 
 RULES = [('R8.dual-stage', r8_dual_stage), ('R1.ase', r1_ase), ('R2.order', r2_order), ('R3.clamp', r3_clamp), ('R4.nf', r4_nf), ('R5.exhaustive', r5_exhaustive),
-         ('R6.band', r6_band), ('R7.gain-profile', r7_gain_profile), RULES_MEMO, RULES_PRESENCE, ('Rk.field-key', rk_field_key), ('Rs.sorted-abscissa', rs_sorted), ('Rn.arg-roles', rn_arg_roles), ('R9.dual-stage-params', r9_dual_stage_params)]
+         ('R6.band', r6_band), ('R7.gain-profile', r7_gain_profile), RULES_MEMO, RULES_PRESENCE, ('Rk.field-key', rk_field_key), ('Rs.sorted-abscissa', rs_sorted), ('Rn.arg-roles', rn_arg_roles), ('R9.dual-stage-params', r9_dual_stage_params), ('R10.converted-tables', r10_converted_tables)]
